@@ -32,6 +32,9 @@ pub enum Cycle {
     LegacyClearThenDropCore,
     /// `notify_after_async`: the future is created, cleared and discarded without ever being awaited
     LegacyAsyncClearedUnawaited,
+    /// cleared while pending, the clear observed (the shell answers, the timer reports cleared), and then
+    /// the app clears the same id once more
+    LegacyClearObservedThenClearAgain,
 }
 
 pub enum Event {
@@ -207,6 +210,13 @@ pub fn run(cycles: &[Cycle]) -> Result<usize, (String, String)> {
                 core = Core::new();
                 outcomes = 0;
                 expect_outcome = false;
+            }
+            Cycle::LegacyClearObservedThenClearAgain => {
+                let r = notify_only(time_reqs(core.process_event(Event::Legacy(k % 2 == 0))))?;
+                core.process_event(Event::LegacyClear);
+                answer(&core, r).map_err(e)?;
+                core.process_event(Event::LegacyClear);
+                expect_outcome = true;
             }
             Cycle::LegacyAsyncClearedUnawaited => {
                 let v: Vec<_> = time_reqs(core.process_event(Event::LegacyAsyncUnawaited)).into_iter().filter(|r| !matches!(r.operation, TimeRequest::Clear { .. })).collect();
